@@ -36,11 +36,35 @@ CHECKS = {
         "chunking, pickle boundary); workers compute one at a time, so shared-memory races between simultaneously running workers are not explored; "
         "worker death is not injected (a real Pool.map hangs there, the property promises nothing).",
    ref="DESIGN.md section 4"),
+ "C05": dict(
+   technique="deterministic simulation: seeded op histories vs shift-register model and read-free twin; scripted-randomness (impulse response) stage for stability and stationary covariance",
+   text="Seeded exploration of operation histories (add_row, eight kinds of read, five kinds of print with perturbed numpy print options, held views, "
+        "ambient noise: global RNG reseeds/draws, clock jumps, other screens) on 1-3 infinite screens of both variants, incl. requested sizes that differ "
+        "from the internal size. After every op a shift-register reference model (exposed screen == previous screen shifted by one row, new row at "
+        "index 0, nothing else changed, requested shape, finite) and a twin with the same seed that only ever receives add_row (reads/prints never "
+        "alter the screen or the random stream) are compared bytewise. One run in eight puts the von Karman instance's random stream behind a seam "
+        "and feeds it zeros and unit impulses: the real add_row then emits the exact impulse responses of the recursion, which decide stability "
+        "(decay below 1e-13 within 12000 steps, also from a random start) and the stationary covariance at lags 0..n_columns against an independent "
+        "float64 von Karman formula - exactly, without sampling noise. Sampling over configurations and histories, not proof.",
+   note="Only public names are used (constructor, add_row, scrn, repr/str). Stationary stage covers the von Karman variant in nx<=24, n_columns<=4, "
+        "L0/pixel<=60 with tolerance 1e-5 of the variance (aotools evaluates the covariance at float32-rounded separations); if a refactor's draw "
+        "pattern cannot be scripted the stage records 'inconclusive', never an alarm.",
+   ref="DESIGN.md section 5"),
+ "C06": dict(
+   technique="deterministic simulation: seeded interleaving of twin screen actors with noise actors; simulated OS entropy and clock; bytewise twin-trace oracle",
+   text="Seeded exploration of schedules that interleave 4-14 screen actors (FFT, sub-harmonic, von Karman, Kolmogorov; every seeded actor twice with the "
+        "same seed, siblings with other seeds incl. 0, 2**32, 2**64+1 and an int sequence, >=2 unseeded actors) one library call per step with noise "
+        "steps: numpy/python global RNG reseed, draw and set_state, simulated clock jumps, other aotools calls (optimal_grouping consumes the global "
+        "RNG), extra screens with the same seeds, gc, print options. Around every screen op the global RNG states must be untouched; at the end twin "
+        "traces (initial screen and every added row) must be bytewise equal, different seeds must differ, unseeded calls must differ. OS entropy and "
+        "the clock are simulated so unseeded screens replay bit for bit; a sample of runs is re-executed in a fresh interpreter under another "
+        "PYTHONHASHSEED, and a run whose digest depends on which unrelated runs preceded it in the process is reported as hidden state.",
+   note="Twins are compared with each other on the same tree (no goldens). Pre-emption at library-call granularity (aotools has no threads). "
+        "Seeds compared as 'different' are distinct ints or an int vs a 3-element sequence.",
+   ref="DESIGN.md section 6"),
 }
 
 PENDING = {
- "C05": "claimed by design (DESIGN.md section 5) - simulator under construction in this round; listed here until the check is registered",
- "C06": "claimed by design (DESIGN.md section 6) - simulator under construction in this round; listed here until the check is registered",
  "C18": "claimed by design (DESIGN.md section 7) - simulator under construction in this round; listed here until the check is registered",
  "C20": "claimed by design (DESIGN.md section 8) - simulator under construction in this round; listed here until the check is registered",
 }
